@@ -421,7 +421,7 @@ def pick_entries(r, n, k_max, symmetric=True):
         return ents
     diag = [(i, i) for i in range(n)]
     offd = [e for e in ents if e[0] != e[1]]
-    chosen = [r.choice(diag)] + r.sample(offd, k_max - 1)
+    chosen = [r.choice(diag)] + r.sample(offd, min(k_max - 1, len(offd)))
     return chosen
 
 
